@@ -20,7 +20,8 @@ RULE = ("hyp: sequence (N=1..40, all composition classes incl. very short) x 'de
         "delta-max of a fresh object on the child's string; child's counts, delta and kappa equal the fresh object's; the parent's sequence, "
         "charge pattern, dmax and phosphosites are unchanged; shuffles and swaps never raise. Non-trivial: some child string differs from "
         "its parent; distinct by the whole case.")
-ASSUMPTIONS = ["frozen positions are 0-based indices, as the implementation and the sampler use them",
+ASSUMPTIONS = ["swapRes may be given Python-style negative spellings of a position: a refusal (exception) is accepted, but a returned object is checked like any other",
+               "frozen positions are 0-based indices, as the implementation and the sampler use them",
                "block swap and charge clustering may refuse (any exception) or exhaust the draw budget (inconclusive); whatever they return is checked",
                "KF-2: permute_block_swap / permute_cluster_charges ignore `frozen` - recorded known finding, matched only on the frozen-position assertion of those two moves"]
 TECHNIQUE = "Hypothesis property testing over move chains with a harness-owned random tape (module-attribute shim, seeded, budgeted) + exhaustive swapRes pairs; oracle = multiset/frozen invariants and differential comparison with a freshly built object"
@@ -41,7 +42,7 @@ def pat_of(obj):
 def do_move(cur, name, frozen, extra, as_list, as_np=False):
     if as_np:
         frozen = [np.int64(f) for f in frozen]        # positions as np.arange / np.where (and the sampler's freeze-file parser) produce them
-    fz = list(frozen) if as_list else set(frozen)
+    fz = (list(frozen) + list(frozen)[:2]) if as_list else set(frozen)        # a list may name a position more than once
     if name == "sp-shuffle":
         SPc = util.env.SP()
         return SPc(SeqObj=cur).get_shuffled_sequence(fz).SeqObj
@@ -49,7 +50,12 @@ def do_move(cur, name, frozen, extra, as_list, as_np=False):
         from localcider.sequencePermutants import SequencePermutants
         return SequencePermutants(cur.seq).get_permutant().SeqObj
     if name == "swapRes":
-        return cur.swapRes(extra[0] % cur.len, extra[1] % cur.len)
+        i, j = extra[0] % cur.len, extra[1] % cur.len
+        if len(extra) > 2 and extra[2]:
+            # Python-style negative spelling of the same positions (accepted by list/array indexing)
+            i = i - cur.len if extra[2] in (1, 3) else i
+            j = j - cur.len if extra[2] in (2, 3) else j
+        return cur.swapRes(i, j)
     if name == "swapRandChargeRes":
         return cur.swapRandChargeRes(set(frozen))
     if name == "full_shuffle":
@@ -87,6 +93,9 @@ def check(ctx, case):
                 ctx.cls("budget:" + name)
                 raise Inconclusive()
             except Exception as e:   # noqa
+                if name == "swapRes" and len(extra) > 2 and extra[2]:
+                    ctx.cls("refused:swapRes-negative-index")       # negative spellings are not documented: a refusal is acceptable
+                    continue
                 if name in MUST_SUCCEED:
                     ctx.fail("raises:" + name, "%s raised %s: %s" % (what, type(e).__name__, e), case)
                 refused += 1
@@ -152,7 +161,11 @@ def hyp_case(draw, max_len):
         else:
             free = draw(st.lists(st.integers(0, N - 1), max_size=3, unique=True))
             frozen = [i for i in range(N) if i not in free]
-        moves.append([name, frozen, [draw(st.integers(0, N - 1)), draw(st.integers(0, N - 1))], draw(st.booleans()), draw(st.integers(0, 3)) == 0, draw(st.integers(0, 2)) == 0])
+        ij = [draw(st.integers(0, N - 1)), draw(st.integers(0, N - 1))]
+        if draw(st.integers(0, 3)) == 0:
+            ij[1] = ij[0]                     # the same position twice
+        ij.append(draw(st.sampled_from([0, 0, 1, 2, 3])))
+        moves.append([name, frozen, ij, draw(st.booleans()), draw(st.integers(0, 3)) == 0, draw(st.integers(0, 2)) == 0])
     return {"seq": seq, "cache": draw(st.booleans()), "moves": moves, "tape": draw(st.integers(0, 2 ** 32 - 1))}
 
 
